@@ -718,6 +718,11 @@ class Codec:
             return self.root(self)
         if last == "Visitor" and self.cur:
             return Struct("__Visitor", {})
+        if last == "is_empty" and len(segs) >= 2 and segs[-2] in ("str", "String") and len(args) == 1:
+            a = deref(args[0])
+            if isinstance(a, (str, Term)):
+                c = ex.eq(a, "")
+                return c if isinstance(c, bool) else rsx.Z(c)
         if last == "new" and len(segs) >= 2 and segs[-2] in ("MapAccessDeserializer", "SeqAccessDeserializer", "StrDeserializer"):
             a = deref(args[0])
             if segs[-2] == "StrDeserializer":
@@ -797,6 +802,14 @@ class Codec:
             return ex.call_value(args[0], [r.payload[0]], node)
         if name == "write_str":
             return ok(UNIT)
+        if isinstance(r, Term) and r.op == "s":
+            if name == "is_empty":
+                c = ex.eq(r, "")
+                return c if isinstance(c, bool) else rsx.Z(c)
+            if name in ("as_str", "as_ref", "to_owned", "clone", "to_string", "borrow"):
+                return r
+        if isinstance(r, Variant) and r.name in (rsx.SOME, rsx.NONE) and name in ("as_deref", "as_ref"):
+            return r
         return NotImplemented
 
     def dispatch_any(self, d, visitor):
